@@ -11,6 +11,7 @@ Grammar (line oriented; `#` starts a comment outside blocks; a block is  <<< ...
   rewrite `old tokens` => `new text`   (unit-wide token rewrite, reported)
   assume NOTE                       (free-text assumption for the evidence)
 
+  contracts_of UNIT.vspec           (every method contract of another unit as `external` callee contracts)
   import FILE.vpart                 (splice in the directives of another file: shared type lists)
   type    FILE NAME                 (extract a `type X = Y;` alias)
   struct  FILE NAME                 (extract a struct definition)
@@ -27,6 +28,7 @@ Grammar (line oriented; `#` starts a comment outside blocks; a block is  <<< ...
       after  `stmt tokens` [@K] <<< text >>>
       before_stmt / after_stmt `tokens` [@K] <<< text >>>   (tokens matched anywhere inside a statement; the text
                                                             goes before the statement's first token / after its `;`)
+      before_opt / after_opt `tokens` <<< text >>>          (proof hint that is simply dropped when the anchor is absent)
       enter <<< text inserted right after the body's opening brace >>>
       exit <<< text inserted before the body's tail expression (or before the closing brace) >>>
       attr #[verifier::...]         (attribute put on the emitted function, e.g. rlimit)
@@ -191,6 +193,17 @@ def parse(path, include_dir=None, part=False):
         elif kw in ("struct", "enum", "type"):
             u.items.append((kw, word(0), word(1)))
             cur = None
+        elif kw == "contracts_of":
+            # the fn contracts proved in another unit, re-used here as callee contracts (external: bodies not re-verified)
+            sub = parse(os.path.join(include_dir, word(0)), include_dir, part=True)
+            for it in sub.items:
+                if it[0] == "fn" and "::" in it[2].qual and not it[2].external:
+                    src_fs = it[2]
+                    fs = FnSpec(src_fs.file, src_fs.qual, external=True)
+                    fs.ret, fs.spec, fs.sigrewrites = src_fs.ret, src_fs.spec, list(src_fs.sigrewrites)
+                    fs.contract_from = word(0)
+                    u.items.append(("fn", fs.file, fs))
+            cur = None
         elif kw == "import":
             sub = parse(os.path.join(include_dir, word(0)), include_dir, part=True)
             u.items += sub.items
@@ -220,7 +233,7 @@ def parse(path, include_dir=None, part=False):
             cur.spec += block() + "\n"
         elif kw == "loop":
             cur.loops[int(word(0))] = block()
-        elif kw in ("before", "after", "before_stmt", "after_stmt"):
+        elif kw in ("before", "after", "before_stmt", "after_stmt", "before_opt", "after_opt"):
             k, _ = ordinal(1)
             cur.anchors.append((kw, tick(0), k, block()))
         elif kw == "enter":
